@@ -281,7 +281,7 @@ fn bfs(n: usize, eng: &mut Eng) {
 }
 
 /// Value clause: own/partner x {state, command} presence x weak timestamp orders.
-fn values(eng: &mut Eng) {
+pub fn values(eng: &mut Eng) {
     let s_own = State::new_raw(1.0, 2.0, 3.0);
     let s_par = State::new_raw(8.0, 16.0, 32.0);
     let c_own = Command::Velocity(5.0);
@@ -289,10 +289,10 @@ fn values(eng: &mut Eng) {
     for linked in [false, true] {
         for mask in 0..16u32 {
             let present: Vec<usize> = (0..4).filter(|b| mask & (1 << b) != 0).collect();
-            for order in weak_orders(present.len()) {
+            for (order, base) in weak_orders(present.len()).into_iter().flat_map(|o| [(o.clone(), 10i64), (o.clone(), -12i64), (o, i64::MIN)]) {
                 let mut t = [0i64; 4];
                 for (k, &slot) in present.iter().enumerate() {
-                    t[slot] = 10 + order[k] as i64 * 5;
+                    t[slot] = base + order[k] as i64 * 5;
                 }
                 eng.executions += 1;
                 eng.states += 1;
